@@ -1187,6 +1187,17 @@ def model_lines(case):
             out.append(("write", sx([Sym("setitem"), t, index_sx(op[1]), list(case["vshape"])])))
     elif k in ("set_at_", "update_at_"):
         out.append(("split", sx([Sym("split"), t, index_sx(op[1])])))
+    elif k == "update_" and op[1] in ("dense", "lazy_same", "lazy_other_sd", "lazy_more", "lazy_fewer"):
+        sd = tree[1]
+        R = len(shape)
+        vsh = list(shape)
+        if op[1] in ("lazy_more", "lazy_fewer"):
+            n = shape[sd] + (1 if op[1] == "lazy_more" else -1)
+            if n <= 0:
+                n = shape[sd] + 1
+            vsh = with_size(shape, sd, n)
+        mode = -1 if op[1] == "dense" else ((sd + 1) % R if (op[1] == "lazy_other_sd" and R >= 2) else sd)
+        out.append(("write", sx([Sym("update_"), t, mode, vsh])))
     elif k == "transpose":
         out.append(("read", sx([Sym("transpose"), t, op[1], op[2]])))
     elif k == "permute":
@@ -1618,6 +1629,89 @@ def gen_case(rng, quick):
     return {"tree": tree, "raw_sd": raw, "op": op}
 
 
+def gen_case_on_stack(rng, quick):
+    """focused stream (deepening round): ONE advanced index sitting ON the top-level stack dim -- an integer tensor of rank
+    1..2 / list / range whose values are a shuffled, partly negative selection of members (so that routing by value and by
+    position differ), or a boolean mask of rank 1..2 starting on the stack dim -- with ints / slices / None before and after it,
+    read and written (tensordict value of exactly the indexed shape)"""
+    while True:
+        tree, raw = gen_tree(rng, quick)
+        shape = tree_shape(tree)
+        sd = tree[1]
+        n = shape[sd]
+        if n >= 1:
+            break
+    R = len(shape)
+    kind = rng.choice(["ten1", "ten1", "ten2", "list", "range", "mask1", "mask1", "mask2"])
+    write = rng.random() < 0.5
+    used = 1
+    if kind in ("ten1", "ten2", "list"):
+        members = list(range(n))
+        rng.shuffle(members)
+        if not write and rng.random() < 0.4:
+            members = members + [rng.randrange(n) for _ in range(rng.randrange(1, 3))]      # repeats: reads only
+        vals = [m - n if rng.random() < 0.4 else m for m in members]
+        if kind == "list":
+            it = ["list", vals]
+        elif kind == "ten2" and len(vals) >= 2 and len(vals) % 2 == 0:
+            it = ["ten", [2, len(vals) // 2] if rng.random() < 0.5 else [len(vals) // 2, 2], vals]
+        elif kind == "ten2":
+            it = ["ten", [1, len(vals)] if rng.random() < 0.5 else [len(vals), 1], vals]
+        else:
+            it = ["ten", [len(vals)], vals]
+    elif kind == "range":
+        a = rng.randrange(0, n)
+        it = ["range", a, rng.randrange(a + 1, n + 1), rng.choice([1, 1, 2])]
+    elif kind == "mask2" and sd + 1 < R:
+        sh = [shape[sd], shape[sd + 1]]
+        it = ["mask", sh, [rng.random() < 0.7 for _ in range(prod(sh))]]
+        used = 2
+    else:
+        it = ["mask", [n], [rng.random() < 0.7 for _ in range(n)]]
+    pre = []
+    for d in range(sd):
+        s = shape[d]
+        pre.append(["int", rng.randrange(-s, s)] if (s > 0 and rng.random() < 0.35) else gen_slice(rng, s))
+    for _ in range(rng.choice([0, 0, 1, 1, 2])):
+        pre.insert(rng.randrange(0, len(pre) + 1), ["none"])
+    post = []
+    for d in range(sd + used, R if rng.random() < 0.6 else rng.randrange(sd + used, R + 1)):
+        s = shape[d]
+        post.append(["int", rng.randrange(-s, s)] if (s > 0 and rng.random() < 0.35) else gen_slice(rng, s))
+    for _ in range(rng.choice([0, 0, 0, 1])):
+        post.insert(rng.randrange(0, len(post) + 1), ["none"])
+    items = pre + [it] + post
+    idx = {"tuple": True if len(items) > 1 else rng.random() < 0.5, "items": items}
+    if write:
+        idx = dedupe_adv(idx, shape)
+        return {"tree": tree, "raw_sd": raw, "op": ["setitem", idx, "td"]}
+    return {"tree": tree, "raw_sd": raw, "op": ["getitem", idx]}
+
+
+def adv_on_top(tree, items):
+    """how the single advanced item of an Ellipsis-free index meets the TOP-LEVEL stack dim: None, or a dict with
+    kind ('int' for list/range/tensor, 'mask'), rank, starts_on (its first dim is the stack dim), none_before,
+    basic_after (no other advanced item)"""
+    sd = tree[1]
+    cursor = 0
+    nones = 0
+    for pos, it in enumerate(items):
+        if it[0] == "ell":
+            return None
+        if it[0] == "none":
+            nones += 1
+            continue
+        m = len(it[1]) if it[0] == "mask" else 1
+        if it[0] in ADV:
+            rank = len(it[1]) if it[0] in ("ten", "mask") else 1
+            rest = items[pos + 1:]
+            return {"kind": "mask" if it[0] == "mask" else "int", "rank": rank, "starts_on": cursor == sd,
+                    "covers": cursor <= sd < cursor + m, "none_before": nones > 0,
+                    "basic_after": not any(x[0] in ADV or x[0] == "ell" for x in rest)}
+        cursor += m
+    return None
+
+
 def _worker(chunk):
     torch, tensordict = _imports()
     torch.set_num_threads(1)
@@ -1671,6 +1765,11 @@ def main(R):
         "transpose (every pair of dims), unsqueeze, insert/append, cat(out=) offsets; write plans for a slice and for an "
         "integer tensor on stack dim 0. Masks on / across the stack dim, tensors on it, permute/squeeze/unbind/split/"
         "repeat/expand/view, update*, stack: correspondence only",
+        "deepening round: an integer tensor / list / range of any rank ON the stack dim: reads (any nesting depth) and the "
+        "write plan (flat stacks; in place, routed by value) are theorems; a mask starting on the stack dim: what _split_index "
+        "returns, cat_dim and split_dim are theorems (split_dim refuted with a None before the mask = C08-D36, a valid write "
+        "that raises; 'or raises' keeps it out of the oracle, the repair is in fixes/C08); unbind along the stack dim: theorem. "
+        "Focused stream: 1500 (quick) / 30000 (thorough) extra cases with the advanced index on the stack dim",
         "the model is in the state AFTER the fix: commits C08-D13/D23/D26/D27/D28/D29/D30/D31/D32/D33/D34/D35 (fixes/C08)",
     ]
     R.trusted = ["Spec/C08_Dense.res_shape/src_of validated against real torch indexing in this run (count in extra)",
@@ -1690,6 +1789,8 @@ def main(R):
                 cases.append(json.load(open(os.path.join(cdir, f)))["case"])
     cases += [json.loads(json.dumps(c)) for c in CORPUS]
     cases += [gen_case(rng, R.quick) for _ in range(N)]
+    n_focus = 1500 if R.quick else 30000
+    cases += [gen_case_on_stack(rng, R.quick) for _ in range(n_focus)]
     results = run_all(cases, 1 if R.quick else 16)
     # model
     tags, lines = [], []
@@ -1726,6 +1827,30 @@ def main(R):
                     elif not f["mask_covers_stack_dim"] and not f["int_tensor_alone_on_stack_dim_0"] and \
                             adv_is_before(c["tree"], items):
                         R.count("theorem-domain:C08_getitem_adv_before_stack_dim")
+        if k in ("getitem", "setitem") and r["verdict"] in ("ok", "lazy-raise"):
+            a = adv_on_top(c["tree"], c["op"][1]["items"])
+            flat = c["tree"][2][0][0] == "td"
+            if a and a["starts_on"] and a["basic_after"]:
+                if a["kind"] == "int" and a["rank"] >= 1 and r["verdict"] == "ok":
+                    if k == "getitem":
+                        R.count("theorem-domain:C08_getitem_tensor_on_stack_dim" + ("" if flat else " (nested members)"))
+                    elif flat and c["op"][2] == "td":
+                        R.count("theorem-domain:C08_setitem_tensor_on_stack_dim" + (" rank>=2" if a["rank"] >= 2 else ""))
+                if a["kind"] == "mask" and a["rank"] >= 1:
+                    R.count("theorem-domain:C08_split_index_mask_on_stack_dim")
+                    mk = [it for it in c["op"][1]["items"] if it[0] == "mask"][0]
+                    if k == "getitem" and a["rank"] == 1 and flat and r["verdict"] == "ok" and any(mk[2]) and \
+                            len(tree_shape(c["tree"])) >= 2:
+                        R.count("theorem-domain:C08_getitem_mask1_on_stack_dim_partial")
+                    if k == "setitem" and c["op"][2] == "td":
+                        R.count("D36-region:write-through-mask-with-None-before:" + r["verdict"] if a["none_before"]
+                                else "write-through-mask-no-None-before:" + r["verdict"])
+        if k == "update_" and ci in per_case and "write" in per_case[ci]:
+            R.count("model-stream:update_ (" + c["op"][1] + ")")
+        if k == "unbind" and r["verdict"] == "ok":
+            Rk = len(tree_shape(c["tree"]))
+            if Rk and norm_d(c["op"][1], Rk) == c["tree"][1]:
+                R.count("theorem-domain:C08_unbind_stackdim")
         if k == "transpose" and r["verdict"] == "ok" and c["tree"][2][0][0] == "td":
             R.count("theorem-domain:C08_transpose")
         if k == "unsqueeze" and r["verdict"] == "ok" and c["tree"][2][0][0] == "td":
